@@ -1,6 +1,7 @@
 package interceptor
 
 import (
+	"errors"
 	"fmt"
 	"reflect"
 
@@ -376,7 +377,12 @@ func tryRepairInvalidUTF8InBlob(blob *common.DataBlob) ([]*history.HistoryEvent,
 	}
 
 	changed, err := validateAndRepairHistoryEvents(events122)
-	if err != nil || !changed {
+	if err == nil && !changed {
+		// The invalid UTF-8 is somewhere we cannot repair (not a failure message). Report it: carrying on with
+		// no events would forward the undecodable blob and silently skip translation and access checks for it.
+		err = errors.New("nothing was repaired in history blob")
+	}
+	if err != nil {
 		return nil, changed, err
 	}
 
